@@ -89,14 +89,14 @@ Section Base.
   Proof. intros [ty0|] H; simpl in H; [eauto | discriminate]. Qed.
 
   (* ---------- unfolding equations ---------- *)
-  Lemma tg_var : forall G v ty chi, tg G (FVar v ty chi) = var_ok G v ty CPrd && ann_ok ty.
+  Lemma tg_var : forall G v ty chi, tg G (FVar v ty chi) = var_ok G v ty CPrd.
   Proof. reflexivity. Qed.
   Lemma tg_op : forall G a o b, tg G (FOp a o b) = tg G a && tg G b && has_ty a CI64 && has_ty b CI64.
   Proof. reflexivity. Qed.
   Lemma tg_ifc : forall G s a b t1 t2 ty, tg G (FIfC s a b t1 t2 ty) =
     tg G a && has_ty a CI64
     && (match b with Some b' => tg G b' && has_ty b' CI64 | None => true end)
-    && tg G t1 && tg G t2 && same_ty t1 ty && same_ty t2 ty && ann_ok ty.
+    && tg G t1 && tg G t2 && same_ty t1 ty && same_ty t2 ty.
   Proof. reflexivity. Qed.
   Lemma tg_print : forall G nl a next ty, tg G (FPrint nl a next ty) =
     tg G a && has_ty a CI64 && tg G next && same_ty next ty.
